@@ -627,18 +627,26 @@ func (si *stackIterator) ProgramCounter() experimental.ProgramCounter {
 
 // Function implements the same method as documented on experimental.StackIterator.
 func (si *stackIterator) Function() experimental.InternalFunction {
-	return si
+	// The returned value describes this frame also after the next call of Next:
+	// callers such as experimental.MultiFunctionListenerFactory keep it.
+	return internalFunction{eng: si.eng, def: si.currentDef}
+}
+
+// internalFunction implements experimental.InternalFunction.
+type internalFunction struct {
+	eng *engine
+	def *wasm.FunctionDefinition
 }
 
 // Definition implements the same method as documented on experimental.InternalFunction.
-func (si *stackIterator) Definition() api.FunctionDefinition {
-	return si.currentDef
+func (f internalFunction) Definition() api.FunctionDefinition {
+	return f.def
 }
 
 // SourceOffsetForPC implements the same method as documented on experimental.InternalFunction.
-func (si *stackIterator) SourceOffsetForPC(pc experimental.ProgramCounter) uint64 {
+func (f internalFunction) SourceOffsetForPC(pc experimental.ProgramCounter) uint64 {
 	upc := uintptr(pc)
-	cm := si.eng.compiledModuleOfAddr(upc)
+	cm := f.eng.compiledModuleOfAddr(upc)
 	return cm.getSourceOffset(upc)
 }
 
